@@ -22,6 +22,7 @@ type PropFunc struct {
 	Key   string   `json:"key"`
 	Kinds []string `json:"kinds,omitempty"` // restrict to obligation kinds (prefix match); empty = all
 	Note  string   `json:"note,omitempty"`
+	UntilCall string `json:"until_call,omitempty"` // only obligations positioned before (or at) the first call of this callee
 }
 
 type Bounded struct {
@@ -223,6 +224,27 @@ func verifyFunctions(P *Program, funcs []PropFunc, solver *Solver, coverSolver *
 			os.WriteFile(filepath.Join(dumpDir, sanitize(pf.Key)+".smt2"), []byte(pre+body), 0o644)
 		}
 		nEns := 0
+		untilLine := 0
+		if pf.UntilCall != "" {
+			for _, b := range fn.Blocks {
+				maxLine := 0
+				for _, in := range b.Instrs {
+					if l := fn.Prog.Fset.Position(in.Pos()).Line; l > maxLine {
+						maxLine = l // argument expressions of a multi-line call come after its first line
+					}
+					if c, ok := in.(*ssa.Call); ok {
+						if sc := c.Call.StaticCallee(); sc != nil && sc.Name() == pf.UntilCall {
+							if untilLine == 0 || maxLine < untilLine {
+								untilLine = maxLine
+							}
+						}
+					}
+				}
+			}
+			if untilLine == 0 {
+				genErrs = append(genErrs, pf.Key+": until_call callee "+pf.UntilCall+" is never called")
+			}
+		}
 		for _, o := range v.obligs {
 			q := pre + body[:o.Offset]
 			if o.Cover {
@@ -235,6 +257,9 @@ func verifyFunctions(P *Program, funcs []PropFunc, solver *Solver, coverSolver *
 				nEns++
 			}
 			if !kindAllowed(pf, o.Kind) {
+				continue
+			}
+			if untilLine > 0 && (o.Pos.Line > untilLine || o.Pos.Line == 0) {
 				continue
 			}
 			q += fmt.Sprintf("(assert (and %s (not %s)))\n", o.Guard, o.Cond)
